@@ -156,13 +156,46 @@ func init() {
 		faultDepth := e.j.Int("fault_depth", 2)
 		opt := DefaultOptions("")
 		opt.Logger = nil
-		for _, thr := range []int{0, 2, 10000} {
+		// a complete rewrite of a much bigger manifest, as a crash between helpRewrite's write and its
+		// rename would leave it behind under the name MANIFEST-REWRITE
+		var staleRewrite []byte
+		{
+			sdir := freshDir(e.j)
+			smf, _, err := helpOpenOrCreateManifestFile(sdir, false, 0, 10000, opt)
+			if err != nil {
+				panic(err)
+			}
+			var big []*pb.ManifestChange
+			for id := uint64(100); id < 140; id++ {
+				big = append(big, newCreateChange(id, 3, 0, options.None))
+			}
+			if err := smf.addChanges(big, opt); err != nil {
+				panic(err)
+			}
+			smf.close()
+			staleRewrite, _ = os.ReadFile(filepath.Join(sdir, ManifestFilename))
+			os.RemoveAll(sdir)
+		}
+		type variant struct {
+			thr   int
+			stale bool
+		}
+		for _, vr := range []variant{{0, false}, {2, false}, {10000, false}, {0, true}, {2, true}} {
+			thr, stale := vr.thr, vr.stale
 			var rec func(seq [][]c17Change, m c17Model)
 			run := func(seq [][]c17Change) {
 				id := fmt.Sprintf("thr%d/%v", thr, seq)
+				if stale {
+					id = "stale-rewrite/" + id
+				}
 				e.do(id, func() (string, string) {
 					dir := freshDir(e.j)
 					defer os.RemoveAll(dir)
+					if stale {
+						if err := os.WriteFile(filepath.Join(dir, manifestRewriteFilename), staleRewrite, 0o600); err != nil {
+							return "setup", err.Error()
+						}
+					}
 					mf, _, err := helpOpenOrCreateManifestFile(dir, false, 0, thr, opt)
 					if err != nil {
 						return "open", err.Error()
